@@ -7,7 +7,6 @@ from sa.selftest import all_pids
 NA = {
  "C12": "not claimed: the normalising-default clauses (R13b of DESIGN 3) and the shape contract of the mixing-weight parameter were not built; Z == 1 itself is numerical. See DESIGN.md section 10.",
  "C13": "gradient values are the numerical semantics of autograd; the only structural clause (no gradient-severing construct) is not a sound necessary condition (detaching the log-sum-exp shift is behaviour-preserving). See DESIGN.md section 4, C13.",
- "C19": "torch state_dict / load_state_dict semantics are run-time behaviour of torch; the registration-discipline rule (R10) was not built and would be close to vacuous. See DESIGN.md section 4, C19.",
 }
 checks = []
 for pid in all_pids():
